@@ -462,6 +462,15 @@ def _mk_tree():
         with open(path, "w") as f:
             f.write(content)
         inside[content.encode()] = "pkg/" + rel
+    # a package exported as a whole (empty package_path), with a sentinel module next to it
+    for rel, content in [("__init__.py", '"""INSIDE:whole/__init__.py"""\n'), ("a.txt", "INSIDE:whole/a.txt"),
+                         ("sub/b.txt", "INSIDE:whole/sub/b.txt"), ("..a", "INSIDE:whole/..a")]:
+        path = os.path.join(T, "pkgs", "c14whole", rel)
+        os.makedirs(os.path.dirname(path), exist_ok=True)
+        with open(path, "w") as f:
+            f.write(content)
+        inside[content.encode()] = "whole/" + rel
+    put("pkgs/c14secret.py", False)
     with open(os.path.join(top, "outside_sentinel.txt"), "w") as f:
         f.write("SENTINEL-OUTSIDE:top")
     outside.add(b"SENTINEL-OUTSIDE:top")
@@ -736,9 +745,12 @@ def _e2e(chk, wutils, SharedDataMiddleware, EnvironBuilder, NotFound, corpus) ->
             return [b"FALLBACK"]
         os.chdir(T)
         mw = SharedDataMiddleware(fallback, {"/static": root, "/s2/": root, "/pkg": ("c14pkg", "data"),
-                                             "/file": os.path.join(root, "index.txt"), "/rel": "root"})
-        for prefix in ["/static", "/s2", "/pkg", "/file", "/rel", "", "/static/..", "/pkg/../static"]:
-            for cs in paths:
+                                             "/file": os.path.join(root, "index.txt"), "/rel": "root", "/whole": ("c14whole", "")})
+        whole_reach = [("../c14secret.py",), ("../outside_sentinel.txt",), ("sub/../../c14secret.py",), ("..", "c14secret.py"),
+                       (os.path.join(T, "pkgs", "c14secret.py"),), ("/" + os.path.join(T, "pkgs", "c14secret.py"),),
+                       ("a.txt",), ("sub/b.txt",), ("__init__.py",), ("./a.txt",), ("sub/../a.txt",), ("..a",), ("../c14whole/a.txt",)]
+        for prefix in ["/static", "/s2", "/pkg", "/file", "/rel", "", "/static/..", "/pkg/../static", "/whole"]:
+            for cs in (paths + whole_reach if prefix == "/whole" else paths):
                 url_path = prefix + "/" + "/".join(cs)
                 inp = {"op": "SharedDataMiddleware", "PATH_INFO": url_path.replace(T, "<T>")}
                 env = dict(environ)
@@ -804,13 +816,20 @@ def _e2e(chk, wutils, SharedDataMiddleware, EnvironBuilder, NotFound, corpus) ->
             chk.count("model:shared_data export loop mismatches", mism)
 
         # ... and over every kind of export: directory, single file, package (resource reader)
-        pkg_dir = os.path.join(T, "pkgs", "c14pkg")
-        all_exports = {"/static": ("D", root), "/pkg": ("P", "data"), "/file": ("F", os.path.join(root, "index.txt")),
-                       "/pkg2/": ("P", "data/sub"), "/f2/": ("F", os.path.join(root, "sub", "inner.txt")), "/static/pkg": ("P", "data")}
-        mw3 = SharedDataMiddleware(fallback, {k: (("c14pkg", v) if kind == "P" else v) for k, (kind, v) in all_exports.items()})
-        a_lines, a_impl = [], []
-        for prefix in ["/static", "/pkg", "/file", "/pkg2", "/f2", "/static/pkg", "/pkgx", "/pkg/.."]:
-            for cs in paths[:: (2 if not quick else 4)]:
+        configs = [
+            ("c14pkg", {"/static": ("D", root), "/pkg": ("P", "data"), "/file": ("F", os.path.join(root, "index.txt")),
+                        "/pkg2/": ("P", "data/sub"), "/f2/": ("F", os.path.join(root, "sub", "inner.txt")), "/static/pkg": ("P", "data")},
+             ["/static", "/pkg", "/file", "/pkg2", "/f2", "/static/pkg", "/pkgx", "/pkg/.."], paths[:: (2 if not quick else 4)]),
+            # a package exported as a whole: package_path is the empty string
+            ("c14whole", {"/whole": ("P", ""), "/w2/": ("P", ""), "/whole/sub": ("P", "sub")},
+             ["/whole", "/w2", "/whole/sub", "/wholex"], paths[:: (2 if not quick else 3)] + whole_reach),
+        ]
+        for pkgname, all_exports, prefixes, plist in configs:
+          pkg_dir = os.path.join(T, "pkgs", pkgname)
+          mw3 = SharedDataMiddleware(fallback, {k: ((pkgname, v) if kind == "P" else v) for k, (kind, v) in all_exports.items()})
+          a_lines, a_impl = [], []
+          for prefix in prefixes:
+            for cs in plist:
                 for url_path in (prefix + "/" + "/".join(cs), prefix + "/".join(cs)):
                     if "\ud800" in url_path or " " in url_path:
                         continue
@@ -822,34 +841,34 @@ def _e2e(chk, wutils, SharedDataMiddleware, EnvironBuilder, NotFound, corpus) ->
                         body = ("<raised %s>" % type(e).__name__).encode()
                     a_lines.append("sdma " + cps(url_path) + "".join(f" {cps(k)}={kind}:{cps(v)}" for k, (kind, v) in all_exports.items()))
                     a_impl.append((url_path, body))
-        res = chk.run_model(exe, a_lines) if exe else None
-        if res is not None:
-            mism = 0
-            for (url_path, body), r in zip(a_impl, res):
-                cands = [] if r == "none" else [(x[0], uncps(x[2:])) for x in r.split("|")]
-                want = b"FALLBACK"
-                for kind, c in cands:
-                    real = os.path.join(pkg_dir, c) if kind == "R" else c
-                    try:
-                        ok = True if kind == "X" else os.path.isfile(real)
-                    except ValueError:
-                        ok = False
-                    if ok:
-                        with open(real, "rb") as fh:
-                            want = fh.read()
-                        break
-                if want != body:
-                    mism += 1
-                    if mism <= 5:
-                        chk.broken("correspondence", "C14 model of SharedDataMiddleware's export loop (all export kinds)",
-                                   f"PATH_INFO {url_path!r}: implementation served {body[:50]!r}, model candidates {cands!r} give {want[:50]!r}",
-                                   case={"PATH_INFO": url_path.replace(T, "<T>"), "impl": repr(body[:80])})
-                if body not in (b"FALLBACK",) and (body in outside or body.startswith(b"SENTINEL-OUTSIDE")):
-                    chk.fail("shared_data-serves-outside", f"shared_data served a file outside its export: {body[:60]!r}",
-                             {"op": "SharedDataMiddleware", "PATH_INFO": url_path.replace(T, "<T>")})
-                chk.case(("sdm-model-all", url_path), nontrivial=True)
-            chk.count("model:shared_data all export kinds compared", len(a_lines))
-            chk.count("model:shared_data all export kinds mismatches", mism)
+          res = chk.run_model(exe, a_lines) if exe else None
+          if res is not None:
+              mism = 0
+              for (url_path, body), r in zip(a_impl, res):
+                  cands = [] if r == "none" else [(x[0], uncps(x[2:])) for x in r.split("|")]
+                  want = b"FALLBACK"
+                  for kind, c in cands:
+                      real = os.path.join(pkg_dir, c) if kind == "R" else c
+                      try:
+                          ok = True if kind == "X" else os.path.isfile(real)
+                      except ValueError:
+                          ok = False
+                      if ok:
+                          with open(real, "rb") as fh:
+                              want = fh.read()
+                          break
+                  if want != body:
+                      mism += 1
+                      if mism <= 5:
+                          chk.broken("correspondence", "C14 model of SharedDataMiddleware's export loop (all export kinds)",
+                                     f"PATH_INFO {url_path!r}: implementation served {body[:50]!r}, model candidates {cands!r} give {want[:50]!r}",
+                                     case={"PATH_INFO": url_path.replace(T, "<T>"), "impl": repr(body[:80])})
+                  if body not in (b"FALLBACK",) and (body in outside or body.startswith(b"SENTINEL-OUTSIDE")):
+                      chk.fail("shared_data-serves-outside", f"shared_data served a file outside its export: {body[:60]!r}",
+                               {"op": "SharedDataMiddleware", "PATH_INFO": url_path.replace(T, "<T>")})
+                  chk.case(("sdm-model-all", url_path), nontrivial=True)
+              chk.count("model:shared_data all export kinds compared", len(a_lines))
+              chk.count("model:shared_data all export kinds mismatches", mism)
     finally:
         os.chdir(cwd0)
         try:
@@ -857,6 +876,7 @@ def _e2e(chk, wutils, SharedDataMiddleware, EnvironBuilder, NotFound, corpus) ->
         except ValueError:
             pass
         sys.modules.pop("c14pkg", None)
+        sys.modules.pop("c14whole", None)
         shutil.rmtree(top, ignore_errors=True)
 
 
@@ -928,6 +948,7 @@ def replay(rep) -> int:
             except ValueError:
                 pass
             sys.modules.pop("c14pkg", None)
+            sys.modules.pop("c14whole", None)
             shutil.rmtree(top, ignore_errors=True)
     print("input:", json.dumps(inp, indent=1, default=repr))
     return 0
